@@ -26,9 +26,8 @@ def qiArrayJson (a : Array QI) : Json := Json.arr (a.map qiJson)
 def vecFn (a : Array QI) : Nat → QI := fun k => a[k]!
 def matFn (a : Array QI) (cols : Nat) : Nat → Nat → QI := fun i j => a[i * cols + j]!
 
-/-- store a function matrix (so that entries are not recomputed) -/
-def memo (r c : Nat) (f : Nat → Nat → QI) : Nat → Nat → QI := matFn (arrayOfMat r c f) c
-def memoV (n : Nat) (f : Nat → QI) : Nat → QI := vecFn (arrayOfFn n f)
+/- Function matrices are stored with `let a := arrayOfMat r c f; let g := matFn a c` inside the handlers (a `def memo`
+   taking `i j` as further arguments would recompute the array at every entry access). -/
 
 def idM : Nat → Nat → QI := fun i j => if i = j then 1 else 0
 
@@ -55,11 +54,12 @@ def hPlanted : Handler := fun j => do
   let U := matFn Ua dA
   let V := matFn Va dB
   let ψ0 : Nat → QI := vecOfAmp dB fun a b => if a = b then QI.ofRat (s.getD a 0) else 0
-  let ψ := memoV (dA * dB) (kronApply dB dA dB U V ψ0)
+  let ψa := arrayOfFn (dA * dB) (kronApply dB dA dB U V ψ0)
+  let ψ := vecFn ψa
   let n2 := sumN (dA * dB) fun i => ψ i * (ψ i).conj
   return Json.mkObj [
     ("unitaryU", Json.bool (isUnitary dA U)), ("unitaryV", Json.bool (isUnitary dB V)),
-    ("psi", qiArrayJson (arrayOfFn (dA * dB) ψ)), ("norm2", qiJson n2),
+    ("psi", qiArrayJson ψa), ("norm2", qiJson n2),
     ("rank", Json.num (schmidtRankVec dA dB ψ : Nat)), ("support", Json.num (supportSize s : Nat))]
 
 /-- exact data of a bipartite vector -/
@@ -82,7 +82,8 @@ def hOp : Handler := fun j => do
   let N := dA * dB
   if a.size != N * N then throw "operator size mismatch"
   let ρ := matFn a N
-  let amp := memo (dA * dA) (dB * dB) (operatorAmp dA dB ρ)
+  let ampA := arrayOfMat (dA * dA) (dB * dB) (operatorAmp dA dB ρ)
+  let amp := matFn ampA (dB * dB)
   let spec := realignAmp dA dB ρ
   return Json.mkObj [
     ("rank", Json.num (rankQ (dA * dA) (dB * dB) amp : Nat)), ("rank_spec", Json.num (schmidtRankOpSpec dA dB ρ : Nat)),
@@ -102,14 +103,20 @@ def hLocalUnitaryOp : Handler := fun j => do
   let ρ := matFn a N
   let U := matFn Ua dA
   let V := matFn Va dB
-  let W := memo N N (kron2 dB dB U V)
-  let Wc := memo N N (kron2 dB dB U (fun i k => (V i k).conj))
-  let ρ' := memo N N (mmul N (memo N N (mmul N W ρ)) (ctr W))
+  let Wa := arrayOfMat N N (kron2 dB dB U V)
+  let W := matFn Wa N
+  let Wca := arrayOfMat N N (kron2 dB dB U (fun i k => (V i k).conj))
+  let Wc := matFn Wca N
+  let t1 := arrayOfMat N N (mmul N W ρ)
+  let ρa := arrayOfMat N N (mmul N (matFn t1 N) (ctr W))
+  let ρ' := matFn ρa N
   let lhs := pTB dB ρ'
-  let rhs := mmul N (memo N N (mmul N Wc (pTB dB ρ))) (ctr Wc)
+  let t2 := arrayOfMat N N (mmul N Wc (pTB dB ρ))
+  let rhsA := arrayOfMat N N (mmul N (matFn t2 N) (ctr Wc))
+  let rhs := matFn rhsA N
   return Json.mkObj [
     ("unitaryU", Json.bool (isUnitary dA U)), ("unitaryV", Json.bool (isUnitary dB V)),
-    ("rho", qiArrayJson (arrayOfMat N N ρ')),
+    ("rho", qiArrayJson ρa),
     ("pt_covariant", Json.bool (eqM N N lhs rhs)),
     ("purity_before", qiJson (purityM N ρ)), ("purity_after", qiJson (purityM N ρ')),
     ("rank_before", Json.num (schmidtRankOpSpec dA dB ρ : Nat)), ("rank_after", Json.num (schmidtRankOpSpec dA dB ρ' : Nat))]
